@@ -500,6 +500,34 @@ def gen_line(G, rng):
         s = sum(ws)
         return [sum(wk * p[0] for wk, p in zip(ws, P)) / s, sum(wk * p[1] for wk, p in zip(ws, P)) / s]
     u = rng.random()
+    if u < 0.2:
+        # a line that clips a corner of a column by a chosen fraction of the column's longest side,
+        # around the 1e-3 tolerance of column_track
+        i = G.pick(rng)
+        P = G.polyg[i]
+        n = len(P)
+        k = rng.randrange(n)
+        V, A, B = P[k], P[k - 1], P[(k + 1) % n]
+        la, lb = math.hypot(A[0] - V[0], A[1] - V[1]), math.hypot(B[0] - V[0], B[1] - V[1])
+        if la > 0 and lb > 0:
+            ea, eb = ((A[0] - V[0]) / la, (A[1] - V[1]) / la), ((B[0] - V[0]) / lb, (B[1] - V[1]) / lb)
+            r = rng.choice([0.4e-3, 0.75e-3, 0.9e-3, 1.1e-3, 1.1e-3, 1.2e-3, 1.2e-3, 1.3e-3, 1.4e-3, 2e-3, 5e-3]) * G.maxside[i]
+            # points on the two sides at distances a, b from the corner with |chord| = r
+            th = rng.uniform(0.25, 0.75)
+            cosv = ea[0] * eb[0] + ea[1] * eb[1]
+            # chord^2 = a^2 + b^2 - 2ab cos; take a = th*q, b = (1-th)*q
+            den = th * th + (1 - th) * (1 - th) - 2 * th * (1 - th) * cosv
+            if den > 1e-12:
+                q = r / math.sqrt(den)
+                ca, cb = th * q, (1 - th) * q
+                if ca < 0.4 * la and cb < 0.4 * lb:
+                    pa = (V[0] + ca * ea[0], V[1] + ca * ea[1]); pb = (V[0] + cb * eb[0], V[1] + cb * eb[1])
+                    dx, dy = (pb[0] - pa[0]) / r, (pb[1] - pa[1]) / r
+                    ext = G.maxside[i]
+                    e0, e1 = rng.uniform(0.05, 1.5) * ext, rng.uniform(0.05, 1.5) * ext
+                    p0 = [pa[0] - e0 * dx, pa[1] - e0 * dy]; p1 = [pb[0] + e1 * dx, pb[1] + e1 * dy]
+                    return (p0, p1, 'corner-clip') if rng.random() < 0.5 else (p1, p0, 'corner-clip')
+        return anywhere(0.15), anywhere(0.15), 'random'
     if u < 0.35: return anywhere(0.15), anywhere(0.15), 'random'
     if u < 0.6: return incol(), incol(), 'inside-inside'
     if u < 0.75: return incol(), anywhere(0.3), 'inside-any'
@@ -550,8 +578,11 @@ def check_track(G, l0, l1, tr, exp, fail):
     for tin, tout, i, niv, tl in exp:
         ln = float(tl) * L
         info[i] = (float(tin), float(tout), ln, ln / G.maxside[i])
-    must = [i for tin, tout, i, niv, tl in exp if info[i][3] > 2e-3]
-    may = set(i for tin, tout, i, niv, tl in exp if info[i][3] > 0.5e-3)
+    # "corner clips shorter than one thousandth of the clipped column's longest side are dropped by design":
+    # a crossing longer than 1.05e-3 x longest side must be listed, one shorter than 0.95e-3 must not (5 % slack
+    # for the doubles: entry/exit distances are differences of norms taken from the start of the line)
+    must = [i for tin, tout, i, niv, tl in exp if info[i][3] > 1.05e-3]
+    may = set(i for tin, tout, i, niv, tl in exp if info[i][3] > 0.95e-3)
     got = [t[0] for t in tr]
     if len(set(got)) != len(got):
         fail('column_track:column-listed-twice', 'columns %s' % [G.cols[i].name for i in got], 'each crossed column once')
@@ -570,11 +601,11 @@ def check_track(G, l0, l1, tr, exp, fail):
                else 'column_track:crossed-column-missing')
         fail(key, 'track omits %s (crossing length / longest side = %s; length / max(distance of exit from start, 1) = %s)' % (
             [G.cols[i].name for i in missing], ['%.3g' % info[i][3] for i in missing], ['%.3g' % r for r in rhos]),
-            'every column crossed over more than 1e-3 x its longest side is listed')
+            'every column crossed over more than 1e-3 (+5 %) x its longest side is listed')
         return
     if extra:
         fail('column_track:lists-uncrossed-column', 'track lists %s' % [G.cols[i].name for i in extra],
-             'only columns the line crosses (crossing longer than 1e-3 x longest side) are listed')
+             'only columns the line crosses (crossing longer than 1e-3 (-5 %) x longest side) are listed')
         return
     # order along the line
     tins = [info[i][0] for i in got]
